@@ -182,7 +182,7 @@ def check_cart(ctx, case):
             if alt is not None:
                 s2, c2 = alt.classify(x, y, True)
                 if (got_cell is None and not s2) or (got_cell is not None and got_cell in c2):
-                    return name + ":inferred_spacing_roundoff"
+                    return name + (":inferred_spacing_roundoff" if lattice.short_decimal(case["region"]) else ":inferred_nondecimal_spacing_roundoff")
             return name
         if o.ok:
             got = float(o.value[0])
